@@ -222,6 +222,22 @@ func (st *State) Apply(o Op) {
 	}
 }
 
+// CRCPreservingPattern returns 6 bytes which, XOR-ed into any message,
+// leave its CRC-32 (IEEE) unchanged: the generator polynomial
+// 0x104C11DB7 laid out in the bit order the reflected CRC consumes,
+// shifted by 0..7 bits.
+func CRCPreservingPattern(shift int) []byte {
+	const g = uint64(0x104C11DB7)
+	out := make([]byte, 6)
+	for i := 0; i <= 32; i++ {
+		if g>>(32-uint(i))&1 != 0 {
+			pos := i + shift%8
+			out[pos/8] |= 1 << uint(pos%8)
+		}
+	}
+	return out
+}
+
 // RandomOp draws a damage operation applicable to the state.
 func RandomOp(rng *rand.Rand, st *State) Op {
 	nf := len(st.Cur)
@@ -244,7 +260,7 @@ func RandomOp(rng *rand.Rand, st *State) Op {
 	glen := func() int {
 		return []int{1, 1, 2, 3, s - 1, s, s + 1, 2*s + 1, 1 + rng.Intn(3*s)}[rng.Intn(9)]
 	}
-	kinds := []string{"delete", "overwrite", "overwrite", "flip", "insert", "cut", "truncate", "append", "swap", "copy"}
+	kinds := []string{"delete", "overwrite", "overwrite", "flip", "insert", "cut", "truncate", "append", "swap", "copy", "crcflip"}
 	k := kinds[rng.Intn(len(kinds))]
 	if nf < 2 && (k == "swap" || k == "copy") {
 		k = "overwrite"
@@ -273,6 +289,19 @@ func RandomOp(rng *rand.Rand, st *State) Op {
 			}
 		}
 		return Op{Kind: "overwrite", A: a, Pos: p, G: []byte{g}}
+	case "crcflip":
+		// damage that keeps the CRC-32 of every slice it lies in
+		if n < 6 {
+			return Op{Kind: "overwrite", A: a, Pos: 0, G: Garbage(rng, 1)}
+		}
+		p := rng.Intn(n - 5)
+		cur := st.Bytes(a)[p : p+6]
+		pat := CRCPreservingPattern(rng.Intn(8))
+		g := make([]byte, 6)
+		for i := range g {
+			g[i] = cur[i] ^ pat[i]
+		}
+		return Op{Kind: "overwrite", A: a, Pos: p, G: g}
 	case "insert":
 		return Op{Kind: "insert", A: a, Pos: pos(), G: Garbage(rng, glen())}
 	case "cut":
